@@ -191,4 +191,5 @@ func genC09(t *testing.T) {
 		nilElemsFork("C09")
 		soakFork(common.Pick(20000, 200000))
 	}
+	progsC09(t)
 }
